@@ -197,4 +197,30 @@ PROPS = {
                 "(op, output shape)",
         "assumptions": ["parameter values shorter than 2^16 bytes"],
     },
+    "C07": {
+        "shrink": False,
+        "run_timeout": 3600,
+        "manifest": {
+            "text": "Lean 4 theorems over models of the parallel parser (any worker interleaving), the RocksDB builder (sort, "
+                    "createBuckets, per-bucket SST, ingest), the batch compiler (any batch size and execution order, via C15's "
+                    "batch_refines) and the CDB writer, all over the real codec's per-line records: parse_order_irrelevant, "
+                    "createBuckets_partition / _no_split (for every minBucketSize, maxBucketNum >= 1: contiguous, covering, "
+                    "non-empty, never separating equal keys), builder_eq_spec, batches_eq_spec_partial (+ proved negation of the "
+                    "full statement: BatchNumParallel = 0 hangs, known finding), cdb_eq_spec, compile_error_iff, "
+                    "compile_config_independent. Correspondence: real CreateCDB / CompileToRDB (v1/v2 x builder/batches x "
+                    "BatchSize x BatchNumParallel x NumCPU) on generated files incl. one > 30000 (thorough > 70000) records so the "
+                    "builder splits buckets and files with a rejected line; all dumps agree with each other, the model and "
+                    "compileSpec (record/key counts + FNV-64 of the canonical dump).",
+            "note": "Partial: goroutine schedules of the real worker pools are sampled (the theorems cover all permutations of the "
+                    "model); the line codec, accumulator and features record enter as the real code's output (codec itself: C09/C01); "
+                    "RocksDB SST writer/ingest and Get/Put/WriteBatch are abstract (C15).",
+        },
+        "trusted": COMMON_TRUSTED + [
+            "RocksDB SST writer / ingestion / write batches abstract; per-line codec output taken from the real Codec.ConvertLn",
+        ],
+        "rule": "6 small files x 3 codec classes (two with a rejected line at first/middle/last position) + one file of ~36000 "
+                "records (thorough: 60+ files and one of ~75000 records), each really compiled under 6-12 configurations; "
+                "distinct = distinct (class, configuration set, digest)",
+        "assumptions": ["BatchNumParallel >= 1 or fewer records than BatchSize (known finding C07-batch-hang)"],
+    },
 }
